@@ -38,7 +38,7 @@ def step (st : St) (line : String) : St × List String :=
   | ["prod-next", topic, ps, start] => match parseInts ps, parseOptNat start with
     | some ps, some start => match nextPartitionRR st.pm topic ps start with
       | some (x, pm') => ({ st with pm := pm' }, [s!"int {x}"])
-      | none => (st, ["error"])
+      | none => ({ st with pm := nextPartitionRRAfterError st.pm topic ps start }, ["error"])
     | _, _ => (st, ["bad-op"])
   | ["rr-pick", ps, start] => match st.rr, parseInts ps, parseOptNat start with
     | some s, some ps, some start => match rrPartition s ps start with
